@@ -34,7 +34,7 @@ def bounds(tier):
 
 def required_guards(tier):
     return ['union', 'intersection', 'both_sets', 'set_and_mapping', 'both_mappings', 'none_operand',
-            'default_weights', 'big_weight', 'fractional_weight', 'skipped_unrepresentable']
+            'default_weights', 'big_weight', 'fractional_weight']
 
 
 def jobs(tier):
